@@ -78,7 +78,7 @@ def gen_string_body(rnd, maxlen=8):
         elif r < 0.8:
             cp = rnd.choice(ASTRAL + [rnd.randrange(0x10000, 0x110000)]) - 0x10000
             out += ("\\u%04x\\u%04X" % (0xD800 + (cp >> 10), 0xDC00 + (cp & 0x3FF))).encode()
-        elif r < 0.97:
+        elif r < 0.99:
             out += chr(rnd.choice(BMP + ASTRAL + [rnd.randrange(0x80, 0xD800), rnd.randrange(0x10000, 0x110000)])).encode("utf-8")
         else:       # unpaired surrogate escape: meaning not defined by the RFC (note class)
             out += rnd.choice([b"\\ud800", b"\\udc00", b"\\uDBFF\\u0041", b"\\udc00\\ud800"])
@@ -245,7 +245,7 @@ def gen_docs(ctx, rnd):
         out.append(("valid", b"[" + n + b"]"))
     for lab, d in TOP_LEVEL_BAD:
         out.append((lab, d))
-    nvalid = 4000 if ctx.quick else 60000
+    nvalid = 4000 if ctx.quick else 100000
     ncorr = 150 if ctx.quick else 1200          # rounds over the corruption catalogue
     for _ in range(nvalid):
         g = Doc(rnd)
@@ -378,7 +378,7 @@ def gen_values(ctx, rnd):
         s = repr(f)
         out.append(("float", "(%s)" % s if s.startswith("-") else s))
     g = ValGen(rnd)
-    for _ in range(4000 if ctx.quick else 50000):
+    for _ in range(4000 if ctx.quick else 80000):
         out.append(("random", g.value(rnd.choice([0, 0, 1, 2, 3, 4, 6]))))
     for cp in list(range(0, 0x80)) + BMP + ASTRAL:      # every ASCII character on its own and inside a word
         out.append(("string", star_str(chr(cp))))
